@@ -105,7 +105,7 @@ fn raw_cfg(r: &mut R) -> RawCfg {
 }
 
 fn recv(r: &mut R) -> RecvSpec {
-    RecvSpec { n_mode: r.below(4) as u8, pattern: r.below(8) as u8, order: r.below(5) as u8, seed: r.u64() }
+    RecvSpec { n_mode: r.below(4) as u8, pattern: r.below(10) as u8, order: r.below(5) as u8, seed: r.u64() }
 }
 
 fn op(r: &mut R) -> Op {
@@ -113,7 +113,11 @@ fn op(r: &mut R) -> Op {
         0..=1 => Op::Reset(raw_cfg(r)),
         2 => {
             if r.below(3) == 0 {
-                Op::ResetSame
+                if r.bool() {
+                    Op::ResetSame
+                } else {
+                    Op::ResetBack { n: r.below(3) as u8 }
+                }
             } else if r.below(2) == 0 {
                 Op::ResetDerived { how: r.below(14) as u8 }
             } else {
@@ -134,7 +138,7 @@ fn op(r: &mut R) -> Op {
         }
         6..=9 => Op::Round { seed: r.u64(), recv: recv(r), read: r.below(8) != 0 },
         10..=11 => Op::Partial { seed: r.u64(), recv: recv(r), n_raw: r.u16() },
-        12..=14 => Op::BadAdd { variant: r.below(7) as u8, raw: r.u16(), seed: r.u64() },
+        12..=14 => Op::BadAdd { variant: r.below(11) as u8, raw: r.u16(), seed: r.u64() },
         _ => Op::Finish { read: r.bool() },
     }
 }
